@@ -262,6 +262,81 @@ let dispatch (a : string array) : string =
       let p = params (n 1) in
       let (r, g') = M.dudect_keygen_sign_with_rng hh fuel p (rng_of_string (n 2)) (bytes_of_hex (n 3)) in
       reply r hex_of_bytes ^ " rng=" ^ string_of_int (List.length g')
+
+  (* ---------- spec oracle (FIPS 204 transcription) ---------- *)
+  | "spec_modpm" -> "ok " ^ string_of_z (M.spec_mod_pm (zi (n 1)) (zi (n 2)))
+  | "spec_c3b" -> (match M.spec_CoeffFromThreeBytes (zi (n 1)) (zi (n 2)) (zi (n 3)) with Some z -> "ok " ^ string_of_z z | None -> "err")
+  | "spec_chb" -> (match M.spec_CoeffFromHalfByte (zi (n 1)) (zi (n 2)) with Some z -> "ok " ^ string_of_z z | None -> "err")
+  | "spec_p2r" -> let (a, b) = M.spec_Power2Round (zi (n 1)) in "ok " ^ string_of_z a ^ " " ^ string_of_z b
+  | "spec_decompose" -> let (a, b) = M.spec_Decompose (zi (n 1)) (zi (n 2)) in "ok " ^ string_of_z a ^ " " ^ string_of_z b
+  | "spec_makehint" -> "ok " ^ s01 (M.spec_MakeHint (zi (n 1)) (zi (n 2)) (zi (n 3)))
+  | "spec_usehint" -> "ok " ^ string_of_z (M.spec_UseHint (zi (n 1)) (zi (n 2)) (zi (n 3)))
+  | "spec_ntt" -> "ok " ^ string_of_poly (M.spec_NTT (poly_of_string (n 1)))
+  | "spec_invntt" -> "ok " ^ string_of_poly (M.spec_invNTT (poly_of_string (n 1)))
+  | "spec_negacyclic" -> "ok " ^ string_of_poly (M.spec_negacyclic (poly_of_string (n 1)) (poly_of_string (n 2)))
+  | "spec_bitpack" -> "ok " ^ hex_of_bytes (M.spec_BitPack (poly_of_string (n 3)) (zi (n 1)) (zi (n 2)))
+  | "spec_sbitpack" -> "ok " ^ hex_of_bytes (M.spec_SimpleBitPack (poly_of_string (n 2)) (zi (n 1)))
+  | "spec_bitunpack" -> "ok " ^ string_of_poly (M.spec_BitUnpack (bytes_of_hex (n 3)) (zi (n 1)) (zi (n 2)))
+  | "spec_sbitunpack" -> "ok " ^ string_of_poly (M.spec_SimpleBitUnpack (bytes_of_hex (n 2)) (zi (n 1)))
+  | "spec_hintpack" -> let p = params (n 1) in "ok " ^ hex_of_bytes (M.spec_HintBitPack p.M.p_omega (vec_of_string (n 2)))
+  | "spec_hintunpack" -> let p = params (n 1) in
+      (match M.spec_HintBitUnpack p.M.p_omega p.M.p_k (bytes_of_hex (n 2)) with Some h -> "ok " ^ string_of_vec h | None -> "err")
+  | "spec_sigdec" -> let p = params (n 1) in
+      let ((c, z), h) = M.spec_sigDecode p (bytes_of_hex (n 2)) in
+      (match h with Some h -> String.concat " " ["ok"; hex_of_bytes c; string_of_vec z; string_of_vec h] | None -> "err")
+  | "spec_sigenc" -> let p = params (n 1) in
+      "ok " ^ hex_of_bytes (M.spec_sigEncode p (bytes_of_hex (n 2)) (vec_of_string (n 3)) (vec_of_string (n 4)))
+  | "spec_skdec" -> let p = params (n 1) in
+      let (((((rho, k), tr), s1), s2), t0) = M.spec_skDecode p (bytes_of_hex (n 2)) in
+      String.concat " " ["ok"; hex_of_bytes rho; hex_of_bytes k; hex_of_bytes tr; string_of_vec s1; string_of_vec s2; string_of_vec t0]
+  | "spec_pkdec" -> let p = params (n 1) in
+      let (rho, t1) = M.spec_pkDecode p.M.p_k (bytes_of_hex (n 2)) in "ok " ^ hex_of_bytes rho ^ " " ^ string_of_vec t1
+  | "spec_pkenc" -> "ok " ^ hex_of_bytes (M.spec_pkEncode (bytes_of_hex (n 2)) (vec_of_string (n 3)))
+  | "spec_w1enc" -> "ok " ^ hex_of_bytes (M.spec_w1Encode (params (n 1)) (vec_of_string (n 2)))
+  | "spec_sib" -> (match M.spec_SampleInBall hh (zi (n 1)) (bytes_of_hex (n 2)) with Some c -> "ok " ^ string_of_poly c | None -> "fuel")
+  | "spec_rejntt" -> (match M.spec_RejNTTPoly hh (bytes_of_hex (n 1)) with Some c -> "ok " ^ string_of_poly c | None -> "fuel")
+  | "spec_rejbounded" -> (match M.spec_RejBoundedPoly hh (zi (n 1)) (bytes_of_hex (n 2)) with Some c -> "ok " ^ string_of_poly c | None -> "fuel")
+  | "spec_expmask" -> "ok " ^ string_of_vec (M.spec_ExpandMask hh (params (n 1)) (bytes_of_hex (n 2)) (zi (n 3)))
+  | "spec_keygen" ->
+      (match M.spec_KeyGen_internal hh (params (n 1)) (bytes_of_hex (n 2)) with
+       | Some (pk, sk) -> "ok " ^ hex_of_bytes pk ^ " " ^ hex_of_bytes sk | None -> "fuel")
+  | "spec_sign" ->
+      (* spec_sign set skhex rndhex msg ctx mode *)
+      let p = params (n 1) in
+      let sk = bytes_of_hex (n 2) and rnd = bytes_of_hex (n 3) and msg = bytes_of_hex (n 4) and ctx = bytes_of_hex (n 5) in
+      let r = (match n 6 with
+        | "pure" -> M.spec_Sign hh fuel p sk msg ctx rnd
+        | "internal" -> (match M.spec_Sign_internal hh fuel p sk msg rnd with Some s -> M.SR_sig s | None -> M.SR_out_of_fuel)
+        | "sha256" -> M.spec_HashSign hh fuel p sk msg ctx M.PH_SHA256 rnd
+        | "sha512" -> M.spec_HashSign hh fuel p sk msg ctx M.PH_SHA512 rnd
+        | "shake128" -> M.spec_HashSign hh fuel p sk msg ctx M.PH_SHAKE128 rnd
+        | _ -> failwith "bad mode") in
+      (match r with M.SR_sig s -> "ok " ^ hex_of_bytes s | M.SR_ctx_too_long -> "err" | M.SR_out_of_fuel -> "fuel")
+  | "spec_verify" ->
+      (* spec_verify set pkhex msg sig ctx mode *)
+      let p = params (n 1) in
+      let pk = bytes_of_hex (n 2) and msg = bytes_of_hex (n 3) and sg = bytes_of_hex (n 4) and ctx = bytes_of_hex (n 5) in
+      let r = (match n 6 with
+        | "pure" -> M.spec_Verify hh p pk msg sg ctx
+        | "internal" -> M.spec_Verify_internal hh p pk msg sg
+        | "sha256" -> M.spec_HashVerify hh p pk msg sg ctx M.PH_SHA256
+        | "sha512" -> M.spec_HashVerify hh p pk msg sg ctx M.PH_SHA512
+        | "shake128" -> M.spec_HashVerify hh p pk msg sg ctx M.PH_SHAKE128
+        | _ -> failwith "bad mode") in
+      (match r with Some b -> "ok " ^ s01 b | None -> "fuel")
+  | "spec_ctilde" ->
+      (* spec_ctilde set pkhex msg ctx mode ctilde_in z h : commitment hash Verify recomputes *)
+      let p = params (n 1) in
+      let pk = bytes_of_hex (n 2) and msg = bytes_of_hex (n 3) and ctx = bytes_of_hex (n 4) in
+      let m' = (match n 5 with
+        | "pure" -> M.spec_M_pure msg ctx
+        | "internal" -> msg
+        | "sha256" -> M.spec_M_hash hh M.PH_SHA256 msg ctx
+        | "sha512" -> M.spec_M_hash hh M.PH_SHA512 msg ctx
+        | "shake128" -> M.spec_M_hash hh M.PH_SHAKE128 msg ctx
+        | _ -> failwith "bad mode") in
+      (match M.spec_ctilde hh p pk m' (bytes_of_hex (n 6)) (vec_of_string (n 7)) (vec_of_string (n 8)) with
+       | Some c -> "ok " ^ hex_of_bytes c | None -> "fuel")
   | op -> "unknown-op " ^ op
 
 let () =
